@@ -83,6 +83,15 @@ def run(R):
                 else:
                     R.exc(b)
                     R.counters['oracle_evaluations'] += 1
+                    # the verdict on a string must not depend on having seen it before: present the rejected string again
+                    st2, b2 = mon.call(Address, t)
+                    R.count('substitutions_presented_twice')
+                    if st2 == 'ok':
+                        R.violation('substitution-accepted-on-second-parse', f'corrupted address rejected at first, accepted when parsed again ({s[i]}->{ch} at {i})',
+                                    {'orig': s, 'mutated': t, 'twice': True})
+        # and the genuine string still parses after all the rejected neighbours
+        st3, b3 = mon.call(Address, s)
+        R.check(st3 == 'ok' and b3 == a, 'genuine-rejected-after-neighbours', 'the genuine address no longer parses after its corrupted neighbours were tried', {'orig': s})
         R.case(mon.fp('subst', s), sample={'substituted': s})
 
     wcs = [w for w in range(-128, 128) if (w + 128) % R.nshards == R.shard]
@@ -106,6 +115,8 @@ def replay(R, w, rec):
     from pytoniq_core.boc.address import Address
     if 'mutated' in w:
         st, b = mon.call(Address, w['mutated'])
+        if w.get('twice'):
+            st, b = mon.call(Address, w['mutated'])
         R.check(st == 'exc', 'substitution-accepted', 'mutated address accepted', w)
     else:
         a = Address((w['wc'], w['hash_part']))
